@@ -24,6 +24,7 @@ type Engine struct {
 	funcs     map[string]*ssa.Function
 	mutGlobal map[*ssa.Global]bool
 	globalInit map[*ssa.Global]*globalInit
+	coverReturns bool // also check that every return is reachable under the contract (thorough tier)
 	srcCache  map[string][]byte
 	posNodes  map[*ssa.Function]map[token.Pos]ast.Node
 	fatals    []string
